@@ -111,10 +111,10 @@ theorem splitRunsList_ids_sublist (t : Int) (rs : Runs) :
   | cons r rest ih =>
     rw [splitRunsList_cons]
     split
-    · exact ⟨ih.1.cons _, by simpa using ih.2.cons₂ r.id⟩
+    · exact ⟨ih.1.cons _, by simpa using ih.2.cons_cons r.id⟩
     · split
-      · exact ⟨by simpa using ih.1.cons₂ r.id, by simpa using ih.2.cons₂ r.id⟩
-      · exact ⟨by simpa using ih.1.cons₂ r.id, ih.2.cons _⟩
+      · exact ⟨by simpa using ih.1.cons_cons r.id, by simpa using ih.2.cons_cons r.id⟩
+      · exact ⟨by simpa using ih.1.cons_cons r.id, ih.2.cons _⟩
 
 /-- both sides of a split of tiled spans are tiled -/
 theorem tiled_split (t : Int) {rs : Runs} (h : Tiled rs) :
@@ -212,5 +212,375 @@ theorem mkChunk_ann {dt k rid : String} {s e : Int} {rows : List Row} {tg : Nat}
     have ht := hsub x rfl
     simp only [sortRuns_tiled ht, runsOverlap_tiled ht, Bool.false_eq_true, if_false]
     exact key (some x)
+
+/-! ### split / concatenate of annotated chunks -/
+
+/-- the annotation shape covered by the C07 theorems about superrun chunks -/
+def Chunk.annotated (c : Chunk) : Bool :=
+  c.wf &&
+    (match c.runId, c.subruns with
+     | some rid, some (s0 :: ss) =>
+       (c.superrun == [⟨rid, c.start, c.stop⟩]) && tiledB (s0 :: ss) && c.promisedContinuity
+     | _, _ => false)
+
+theorem Chunk.annotated_iff (c : Chunk) : c.annotated = true ↔
+    c.wf = true ∧ ∃ rid subs, c.runId = some rid ∧ c.subruns = some subs ∧ subs ≠ [] ∧
+      c.superrun = [⟨rid, c.start, c.stop⟩] ∧ Tiled subs ∧ c.promisedContinuity = true := by
+  unfold Chunk.annotated
+  cases h1 : c.runId with
+  | none => simp
+  | some rid =>
+    cases h2 : c.subruns with
+    | none => simp
+    | some subs =>
+      cases subs with
+      | nil => simp
+      | cons s0 ss => simp [tiledB_iff, and_assoc]
+
+/-- explicit result of `split` when the super-run entry is the default one and the split sub-run
+annotations are tiled -/
+theorem split_ann_ok {c : Chunk} {rid : String} {t : Int} {early : Bool} {d1 d2 : List Row} {t' : Int}
+    (hsup : c.superrun = [⟨rid, c.start, c.stop⟩])
+    (hs1 : ∀ x, (splitSub c t').1 = some x → Tiled x) (hs2 : ∀ x, (splitSub c t').2 = some x → Tiled x)
+    (h0 : 0 ≤ c.start) (hst : c.start ≤ t') (hts : t' ≤ c.stop)
+    (hin1 : ∀ x ∈ d1, c.start ≤ x.time ∧ x.endt ≤ t') (hin2 : ∀ x ∈ d2, t' ≤ x.time ∧ x.endt ≤ c.stop)
+    (hv : splitData c t early = .ok (d1, d2, t')) :
+    c.split t early = .ok
+      (⟨c.dataType, c.kind, some rid, c.start, t', d1, (splitSub c t').1, [⟨rid, c.start, t'⟩], c.target⟩,
+       ⟨c.dataType, c.kind, some rid, t', c.stop, d2, (splitSub c t').2, [⟨rid, t', c.stop⟩], c.target⟩) := by
+  have hsr := splitRuns_single rid c.start c.stop t' hst hts
+  have hm1 : max c.start t' = t' := by omega
+  have hm2 : max t' c.stop = c.stop := by omega
+  have hr1 : splitRun1 c t' = some rid := by
+    unfold splitRun1; rw [hsup, runSingle_of hsr.1]; rfl
+  have hr2 : splitRun2 c t' = some rid := by
+    unfold splitRun2; rw [hsup, runSingle_of hsr.2]; rfl
+  rw [Chunk.split_eq, hv]
+  simp only [bind, Except.bind, hr1, hr2, hm1, hm2, hsup]
+  rw [mkChunk_ann h0 hst hin1 hs1 hsr.1]
+  simp only
+  rw [mkChunk_ann (by omega) hts hin2 hs2 hsr.2]
+  rfl
+
+theorem chunk_eta_ann (c : Chunk) (rid : String) (subs : Runs) (hsub : c.subruns = some subs)
+    (hrid : c.runId = some rid) (hsup : c.superrun = [⟨rid, c.start, c.stop⟩]) :
+    (⟨c.dataType, c.kind, some rid, c.start, c.stop, c.rows, some subs, [⟨rid, c.start, c.stop⟩], c.target⟩ : Chunk) = c := by
+  cases c
+  simp_all
+
+/-- `split` of an annotated chunk, if it succeeds, gives two well-formed adjacent chunks whose
+sub-run annotations are the two sides of `_split_runs_in_chunk` -/
+theorem split_annotated {c : Chunk} {t : Int} {early : Bool} {c1 c2 : Chunk}
+    (ha : c.annotated = true) (h : c.split t early = .ok (c1, c2)) :
+    ∃ rid subs t', c.runId = some rid ∧ c.subruns = some subs ∧ c.start ≤ t' ∧ t' ≤ c.stop ∧
+      c1 = ⟨c.dataType, c.kind, some rid, c.start, t', c1.rows, (splitRuns (some subs) t').1,
+        [⟨rid, c.start, t'⟩], c.target⟩ ∧
+      c2 = ⟨c.dataType, c.kind, some rid, t', c.stop, c2.rows, (splitRuns (some subs) t').2,
+        [⟨rid, t', c.stop⟩], c.target⟩ ∧
+      c1.rows ++ c2.rows = c.rows ∧ c1.wf = true ∧ c2.wf = true := by
+  obtain ⟨hwf, rid, subs, hrid, hsub, hne, hsup, htl, hpc⟩ := (Chunk.annotated_iff c).1 ha
+  obtain ⟨h0, hse, hs, hpos, hin⟩ := (Chunk.wf_iff c).1 hwf
+  obtain ⟨d1, d2, t', hv, -, -⟩ := Chunk.split_ok_inv h
+  obtain ⟨hcat, hst, hts, hl, hr⟩ := splitData_wf hwf hv
+  have hin1 : ∀ x ∈ d1, c.start ≤ x.time ∧ x.endt ≤ t' :=
+    fun x hx => ⟨(hin x (by rw [← hcat]; simp [hx])).1, hl x hx⟩
+  have hin2 : ∀ x ∈ d2, t' ≤ x.time ∧ x.endt ≤ c.stop :=
+    fun x hx => ⟨hr x hx, (hin x (by rw [← hcat]; simp [hx])).2⟩
+  have hss : splitSub c t' = splitRuns (some subs) t' := by
+    unfold splitSub; rw [hpc, hsub]; rfl
+  have htsp := tiled_split t' htl
+  have hs1 : ∀ x, (splitSub c t').1 = some x → Tiled x := by
+    rw [hss]; exact popEmpty_tiled htsp.1
+  have hs2 : ∀ x, (splitSub c t').2 = some x → Tiled x := by
+    rw [hss]; exact popEmpty_tiled htsp.2
+  have hres := split_ann_ok hsup hs1 hs2 h0 hst hts hin1 hin2 hv
+  rw [h, hss] at hres
+  simp only [Except.ok.injEq, Prod.mk.injEq] at hres
+  obtain ⟨rfl, rfl⟩ := hres
+  rw [← hcat] at hs hpos
+  refine ⟨rid, subs, t', hrid, hsub, hst, hts, rfl, rfl, hcat, ?_, ?_⟩
+  · exact (Chunk.wf_iff _).2 ⟨h0, hst, hs.append_left, hpos.of_append.1, hin1⟩
+  · exact (Chunk.wf_iff _).2 ⟨(show (0:Int) ≤ t' by omega), hts, hs.append_right, hpos.of_append.2, hin2⟩
+
+/-- split then concatenate restores an annotated chunk, including `subruns` and `superrun` -/
+theorem concat_inverse_ann {c : Chunk} {t : Int} {early : Bool} {c1 c2 : Chunk}
+    (ha : c.annotated = true) (h : c.split t early = .ok (c1, c2)) :
+    concatenate [c1, c2] false = .ok c := by
+  obtain ⟨hwf, rid', subs', hrid', hsub', hne, hsup, htl, hpc⟩ := (Chunk.annotated_iff c).1 ha
+  obtain ⟨rid, subs, t', hrid, hsub, hst, hts, hc1, hc2, hcat, hw1, hw2⟩ := split_annotated ha h
+  have e1 : rid' = rid := by rw [hrid] at hrid'; simpa using hrid'.symm
+  have e2 : subs' = subs := by rw [hsub] at hsub'; simpa using hsub'.symm
+  subst e1 e2
+  obtain ⟨h0, hse, -, -, hin⟩ := (Chunk.wf_iff c).1 hwf
+  rw [concatenate_eq]
+  have f1 : c1.dataType = c.dataType := by rw [hc1]
+  have f2 : c2.dataType = c.dataType := by rw [hc2]
+  have f3 : c1.runId = some rid' := by rw [hc1]
+  have f4 : c2.runId = some rid' := by rw [hc2]
+  have f5 : c1.subruns = (splitRuns (some subs') t').1 := by rw [hc1]
+  have f6 : c2.subruns = (splitRuns (some subs') t').2 := by rw [hc2]
+  have f7 : c1.start = c.start := by rw [hc1]
+  have f8 : c1.stop = t' := by rw [hc1]
+  have f9 : c2.start = t' := by rw [hc2]
+  have f10 : c2.stop = c.stop := by rw [hc2]
+  have f11 : c1.kind = c.kind := by rw [hc1]
+  have f12 : c1.target = c.target := by rw [hc1]
+  have f13 : c2.target = c.target := by rw [hc2]
+  have h1 : allEq (List.map (fun x => x.dataType) [c1, c2]) = true := by simp [allEq, f1, f2]
+  have h2 : allEq (List.map (fun x => x.runId) [c1, c2]) = true := by simp [allEq, f3, f4]
+  have h3 : concatRun [c1, c2] c1 = .ok (some rid', none) := by
+    simp only [concatRun]; rw [h2]; simp [f3, pure, Except.pure]
+  have hm := split_merge_runs' t' subs' htl.sorted htl.2.1 htl.2.2
+  have h4 : concatSub [c1, c2] = .ok (some subs') := by
+    have : mergeSubruns [c1, c2] false = .ok (some subs') := by
+      simp only [mergeSubruns, List.map_cons, List.map_nil, f5, f6, hm, bind, Except.bind, pure, Except.pure]
+      cases subs' with
+      | nil => exact absurd rfl hne
+      | cons a l => rfl
+    simp only [concatSub, this, pure, Except.pure]
+  have h5 : outOfOrder 0 [c1, c2] = false := by
+    simp [outOfOrder, f7, f8, f9]; omega
+  simp only [h1, h2, h3, h4, h5, bind, Except.bind]
+  simp only [Bool.not_true, Bool.false_eq_true, if_false, Bool.false_and, List.getLast?_cons_cons,
+    List.getLast?_singleton, Option.getD_some, List.flatMap_cons, List.flatMap_nil, List.append_nil,
+    List.map_cons, List.map_nil, List.foldl_cons, List.foldl_nil]
+  rw [f1, f11, f7, f10, hcat, f12, f13]
+  have hin' : ∀ x ∈ c.rows, c.start ≤ x.time ∧ x.endt ≤ c.stop := hin
+  have := mkChunk_ann (dt := c.dataType) (k := c.kind) (rid := rid') (tg := max (max 0 c.target) c.target)
+    (sub := some subs') (sup := none) h0 hse hin' (by intro x hx; simp at hx; subst hx; exact htl) (Or.inl rfl)
+  rw [this]
+  have e : max (max 0 c.target) c.target = c.target := by omega
+  rw [e, chunk_eta_ann c rid' subs' hsub hrid hsup]
+
+/-- a strict split of an annotated chunk at a time no row straddles succeeds -/
+theorem split_ann_total {c : Chunk} {t : Int} (ha : c.annotated = true)
+    (hno : ¬ ∃ r ∈ c.rows, r.straddles t) : ∃ c1 c2, c.split t false = .ok (c1, c2) := by
+  obtain ⟨hwf, rid, subs, hrid, hsub, hne, hsup, htl, hpc⟩ := (Chunk.annotated_iff c).1 ha
+  obtain ⟨h0, hse, hs, hpos, hin⟩ := (Chunk.wf_iff c).1 hwf
+  have hnn : ∀ r ∈ c.rows, 0 ≤ r.time := by intro r hr; have := hin r hr; omega
+  cases hv : splitData c t false with
+  | error e =>
+    obtain ⟨-, -, hsa⟩ := splitData_error hv
+    have := splitArray_strict_error hsa
+    subst this
+    exact absurd (straddler_of_splitArray_refuses hnn hsa) hno
+  | ok v =>
+    obtain ⟨d1, d2, t'⟩ := v
+    obtain ⟨hcat, hst, hts, hl, hr⟩ := splitData_wf hwf hv
+    have hin1 : ∀ x ∈ d1, c.start ≤ x.time ∧ x.endt ≤ t' :=
+      fun x hx => ⟨(hin x (by rw [← hcat]; simp [hx])).1, hl x hx⟩
+    have hin2 : ∀ x ∈ d2, t' ≤ x.time ∧ x.endt ≤ c.stop :=
+      fun x hx => ⟨hr x hx, (hin x (by rw [← hcat]; simp [hx])).2⟩
+    have hss : splitSub c t' = splitRuns (some subs) t' := by
+      unfold splitSub; rw [hpc, hsub]; rfl
+    have htsp := tiled_split t' htl
+    have hs1 : ∀ x, (splitSub c t').1 = some x → Tiled x := by
+      rw [hss]; exact popEmpty_tiled htsp.1
+    have hs2 : ∀ x, (splitSub c t').2 = some x → Tiled x := by
+      rw [hss]; exact popEmpty_tiled htsp.2
+    exact ⟨_, _, split_ann_ok hsup hs1 hs2 h0 hst hts hin1 hin2 hv⟩
+
+/-! ### `merge` is total on chunks that agree (incl. identical run annotations) -/
+
+def replEntry (n : Nat) (r : Run) : String × List (Int × Int) := (r.id, List.replicate n (r.start, r.stop))
+
+theorem foldl_addRun_same (subs : Runs) (hnd : (subs.map (·.id)).Nodup) (k : Nat) :
+    subs.foldl addRun (subs.map (replEntry k)) = subs.map (replEntry (k+1)) := by
+  induction subs with
+  | nil => rfl
+  | cons r rest ih =>
+    simp only [List.map_cons, List.nodup_cons, List.mem_map, not_exists, not_and] at hnd
+    have hfresh : ∀ x ∈ rest, x.id ≠ r.id := fun x hx e => hnd.1 x hx e
+    simp only [List.map_cons, List.foldl_cons]
+    have e : addRun (replEntry k r :: rest.map (replEntry k)) r
+        = (r.id, List.replicate k (r.start, r.stop) ++ [(r.start, r.stop)]) :: rest.map (replEntry k) := by
+      simp [replEntry, addRun]
+    rw [e, foldl_addRun_fresh _ _ _ _ hfresh, ih hnd.2]
+    simp [replEntry, List.replicate_succ']
+
+theorem foldl_addRun_first (subs : Runs) (hnd : (subs.map (·.id)).Nodup) :
+    subs.foldl addRun [] = subs.map (replEntry 1) := by
+  induction subs with
+  | nil => rfl
+  | cons r rest ih =>
+    simp only [List.map_cons, List.nodup_cons, List.mem_map, not_exists, not_and] at hnd
+    have hfresh : ∀ x ∈ rest, x.id ≠ r.id := fun x hx e => hnd.1 x hx e
+    simp only [List.foldl_cons, addRun, List.map_cons]
+    rw [foldl_addRun_fresh _ _ _ _ hfresh, ih hnd.2]
+    rfl
+
+theorem foldl_step_replicate (f : List (String × List (Int × Int)) → Option Runs → List (String × List (Int × Int)))
+    (hf : ∀ acc l, f acc (some l) = l.foldl addRun acc)
+    (subs : Runs) (hnd : (subs.map (·.id)).Nodup) :
+    ∀ m k, (List.replicate m (some subs)).foldl f (subs.map (replEntry k)) = subs.map (replEntry (k+m)) := by
+  intro m
+  induction m with
+  | zero => intro k; rfl
+  | succ m ih =>
+    intro k
+    simp only [List.replicate_succ, List.foldl_cons, hf]
+    rw [foldl_addRun_same subs hnd k, ih (k+1)]
+    congr 2; omega
+
+theorem collectRuns_replicate (subs : Runs) (hnd : (subs.map (·.id)).Nodup) (n : Nat) :
+    collectRuns (List.replicate (n+1) (some subs)) = subs.map (replEntry (n+1)) := by
+  unfold collectRuns
+  simp only [List.replicate_succ, List.foldl_cons]
+  rw [foldl_addRun_first subs hnd, foldl_step_replicate _ (fun _ _ => rfl) subs hnd n 1]
+  congr 2; omega
+
+theorem collectRuns_nones (n : Nat) : collectRuns (List.replicate n (none : Option Runs)) = [] := by
+  unfold collectRuns
+  induction n with
+  | zero => rfl
+  | succ n ih => simpa [List.replicate_succ] using ih
+
+theorem mergableCheck_repl (subs : Runs) (n : Nat) :
+    mergableCheck true (subs.map (replEntry (n+1))) = .ok subs := by
+  unfold mergableCheck
+  induction subs with
+  | nil => rfl
+  | cons r rest ih =>
+    rw [List.map_cons, List.mapM_cons, ih]
+    have hsort : (List.replicate (n+1) (r.start, r.stop)).mergeSort (fun a b => decide (a.1 ≤ b.1))
+        = List.replicate (n+1) (r.start, r.stop) := by
+      apply List.mergeSort_of_pairwise
+      rw [List.pairwise_replicate]
+      right; simp
+    simp only [replEntry, hsort]
+    simp [List.replicate_succ, bind, Except.bind, pure, Except.pure]
+    have hl : (((r.start, r.stop) :: List.replicate n (r.start, r.stop)).getLast?.getD (r.start, r.stop))
+        = (r.start, r.stop) := by
+      cases h : ((r.start, r.stop) :: List.replicate n (r.start, r.stop)).getLast? with
+      | none => rfl
+      | some y =>
+        have hm := List.mem_of_getLast? h
+        simp only [List.mem_cons, List.mem_replicate] at hm
+        rcases hm with rfl | ⟨-, rfl⟩ <;> rfl
+    rw [hl]
+
+theorem mem_zipRows {a b : List Row} {x : Row} (h : x ∈ zipRows a b) :
+    ∃ y ∈ b, x.time = y.time ∧ x.endt = y.endt := by
+  induction a generalizing b with
+  | nil => simp [zipRows] at h
+  | cons p ps ih =>
+    cases b with
+    | nil => simp [zipRows] at h
+    | cons q qs =>
+      simp only [zipRows, List.mem_cons] at h
+      rcases h with rfl | h
+      · exact ⟨q, by simp, rfl, rfl⟩
+      · obtain ⟨y, hy, e⟩ := ih h
+        exact ⟨y, by simp [hy], e⟩
+
+theorem eq_replicate_of_all {α} {l : List α} {a : α} (h : ∀ x ∈ l, x = a) : l = List.replicate l.length a :=
+  List.eq_replicate_iff.2 ⟨rfl, h⟩
+
+/-- `Chunk.merge` is total on ≥ 1 well-formed chunks that agree on kind, run id, number of rows,
+range AND run annotations, the annotations being the default super-run entry and no or tiled
+sub-runs (explicit side conditions: `superrun = [(run_id, start, stop)]`, `subruns` none or tiled) -/
+theorem merge_total' {c0 : Chunk} {rest : List Chunk} {dt rid : String}
+    (hwf : ∀ c ∈ c0 :: rest, c.wf = true)
+    (hagree : ∀ c ∈ rest, c.kind = c0.kind ∧ c.runId = c0.runId ∧ c.rows.length = c0.rows.length ∧
+      c.start = c0.start ∧ c.stop = c0.stop ∧ c.subruns = c0.subruns ∧ c.superrun = c0.superrun)
+    (hrid : c0.runId = some rid) (hsup : c0.superrun = [⟨rid, c0.start, c0.stop⟩])
+    (hsub : ∀ x, c0.subruns = some x → Tiled x) :
+    ∃ c, mergeChunks (c0 :: rest) dt = .ok c := by
+  cases rest with
+  | nil => exact ⟨c0, rfl⟩
+  | cons c1 rest' =>
+    rw [mergeChunks_eq]
+    have hk : allEq ((c0 :: c1 :: rest').map (·.kind)) = true := by
+      rw [allEq_map_iff]; intro x hx
+      simp only [List.mem_cons] at hx
+      rcases hx with rfl | hx
+      · rfl
+      · exact (hagree x (by simpa using hx)).1
+    have hr : allEq ((c0 :: c1 :: rest').map (·.runId)) = true := by
+      rw [allEq_map_iff]; intro x hx
+      simp only [List.mem_cons] at hx
+      rcases hx with rfl | hx
+      · rfl
+      · exact (hagree x (by simpa using hx)).2.1
+    have hl : allEq ((c0 :: c1 :: rest').map (·.rows.length)) = true := by
+      rw [allEq_map_iff]; intro x hx
+      simp only [List.mem_cons] at hx
+      rcases hx with rfl | hx
+      · rfl
+      · exact (hagree x (by simpa using hx)).2.2.1
+    have hrg : allEq ((c0 :: c1 :: rest').map (fun c => (c.start, c.stop))) = true := by
+      rw [allEq_map_iff]; intro x hx
+      simp only [List.mem_cons] at hx
+      rcases hx with rfl | hx
+      · rfl
+      · have := hagree x (by simpa using hx)
+        simp [this.2.2.2.1, this.2.2.2.2.1]
+    simp only [hk, hr, hl, hrg, Bool.not_true, Bool.false_eq_true, if_false]
+    -- run annotations
+    have hsubs : (c0 :: c1 :: rest').map (·.subruns) = List.replicate (rest'.length + 1 + 1) c0.subruns := by
+      have := eq_replicate_of_all (l := (c0 :: c1 :: rest').map (·.subruns)) (a := c0.subruns) (by
+        intro x hx
+        simp only [List.mem_map] at hx
+        obtain ⟨y, hy, rfl⟩ := hx
+        simp only [List.mem_cons] at hy
+        rcases hy with rfl | hy
+        · rfl
+        · exact (hagree y (by simpa using hy)).2.2.2.2.2.1)
+      simpa using this
+    have hsups : (c0 :: c1 :: rest').map (fun c => some c.superrun)
+        = List.replicate (rest'.length + 1 + 1) (some [⟨rid, c0.start, c0.stop⟩]) := by
+      have := eq_replicate_of_all (l := (c0 :: c1 :: rest').map (fun c => some c.superrun))
+        (a := some [⟨rid, c0.start, c0.stop⟩]) (by
+        intro x hx
+        simp only [List.mem_map] at hx
+        obtain ⟨y, hy, rfl⟩ := hx
+        simp only [List.mem_cons] at hy
+        rcases hy with rfl | hy
+        · rw [hsup]
+        · rw [(hagree y (by simpa using hy)).2.2.2.2.2.2, hsup])
+      simpa using this
+    have hmsup : mergeSuperrun (c0 :: c1 :: rest') true = .ok [⟨rid, c0.start, c0.stop⟩] := by
+      unfold mergeSuperrun
+      rw [hsups, collectRuns_replicate _ (by simp), mergableCheck_repl]
+    have hmsub : ∃ sub, mergeSubruns (c0 :: c1 :: rest') true = .ok sub ∧ ∀ x, sub = some x → Tiled x := by
+      unfold mergeSubruns
+      rw [hsubs]
+      cases hs : c0.subruns with
+      | none =>
+        rw [collectRuns_nones]
+        exact ⟨none, rfl, by simp⟩
+      | some subs =>
+        have ht := hsub subs hs
+        rw [collectRuns_replicate _ ht.2.1, mergableCheck_repl]
+        refine ⟨_, rfl, ?_⟩
+        intro x hx
+        split at hx
+        · simp at hx
+        · simp at hx; subst hx; exact ht
+    obtain ⟨sub, hsubeq, hsubt⟩ := hmsub
+    simp only [hsubeq, hmsup, bind, Except.bind]
+    obtain ⟨h0, hse, -, -, -⟩ := (Chunk.wf_iff c0).1 (hwf c0 (by simp))
+    -- rows of the merged chunk carry the intervals of the last chunk, which is well-formed
+    obtain ⟨cl, hcl⟩ : ∃ cl, (c0 :: c1 :: rest').getLast? = some cl := by
+      cases hx : (c0 :: c1 :: rest').getLast? with
+      | none => simp at hx
+      | some cl => exact ⟨cl, rfl⟩
+    have hclm : cl ∈ c0 :: c1 :: rest' := List.mem_of_getLast? hcl
+    obtain ⟨-, -, -, -, hincl⟩ := (Chunk.wf_iff cl).1 (hwf cl hclm)
+    have hclrange : cl.start = c0.start ∧ cl.stop = c0.stop := by
+      simp only [List.mem_cons] at hclm
+      rcases hclm with rfl | hclm
+      · exact ⟨rfl, rfl⟩
+      · have := hagree cl (by simpa using hclm)
+        exact ⟨this.2.2.2.1, this.2.2.2.2.1⟩
+    rw [hcl]
+    simp only [Option.getD_some]
+    rw [hrid]
+    have hin : ∀ x ∈ zipRows c0.rows cl.rows, c0.start ≤ x.time ∧ x.endt ≤ c0.stop := by
+      intro x hx
+      obtain ⟨y, hy, e1, e2⟩ := mem_zipRows hx
+      have := hincl y hy
+      omega
+    exact ⟨_, mkChunk_ann h0 hse hin hsubt (Or.inr rfl)⟩
 
 end Strax
